@@ -13,6 +13,7 @@
  *   fn <prog> <name>,...     function table of a program (index order)
  *   tab <prog> psize=<n> fi=<count>:<file>,... li=<len>:<line16>,... files=<id>:<name>,...
  *                            the real file_info / line_info tables (raw unsigned 16 bit values) and the program size
+ *   tra <prog> <cnt>*<fileid>:<firstline>|<cnt>*- ...   the real translate_absolute_line() for EVERY absolute line 0..total+2
  *   dec <prog> <cnt>*<text> ...   run-length list of the real get_line_number() answer for EVERY offset 0..psize
  *   cs caught=<c> err=<text> n=<k> <kind>:<tableindex>:<prog>:<ob>:<pcoff> ... cur=<prog>:<ob>:<pcoff>
  *                            raw control stack and registers at the moment of the error (hook in error_context.c)
@@ -172,6 +173,50 @@ static void dump_prog (const program_t * prog, int force)
         }
       if (!nseen)
         tb_add (&t, "-");
+      tb_flush (&t);
+    }
+
+  /* the real translate_absolute_line on EVERY absolute line 0 .. total+2 (segment boundaries included, whether or
+   * not code was generated under the line); consecutive lines that map to consecutive lines of one file are
+   * printed as <count>*<file id>:<first line>, lines the function rejects as <count>*- */
+  if (prog->line_info && prog->file_info && prog->file_info[1] > 2)
+    {
+      unsigned short *fi = prog->file_info;
+      int lnoff = fi[1];
+      long total = 0;
+      int have = 0, cnt = 0, pf = 0, pl = 0, pbad = 0;
+      for (int i = 2; i + 1 < lnoff; i += 2)
+        total += fi[i];
+      tb_add (&t, "tra %s", prog->name);
+      for (long a = 0; a <= total + 2; a++)
+        {
+          int f = 0, l = 0;
+          int bad = translate_absolute_line ((int) a, &fi[2], (lnoff - 2) * sizeof (short), &f, &l) != 0;
+          if (have && bad == pbad && (bad || (f == pf && l == pl + cnt)))
+            {
+              cnt++;
+              continue;
+            }
+          if (have)
+            {
+              if (pbad)
+                tb_add (&t, " %d*-", cnt);
+              else
+                tb_add (&t, " %d*%d:%d", cnt, pf, pl);
+            }
+          have = 1;
+          cnt = 1;
+          pf = f;
+          pl = l;
+          pbad = bad;
+        }
+      if (have)
+        {
+          if (pbad)
+            tb_add (&t, " %d*-", cnt);
+          else
+            tb_add (&t, " %d*%d:%d", cnt, pf, pl);
+        }
       tb_flush (&t);
     }
 
